@@ -17,4 +17,5 @@ import (
 	_ "verifmc/props/c33"
 	_ "verifmc/props/c35"
 	_ "verifmc/props/c36"
+	_ "verifmc/props/c39"
 )
